@@ -38,14 +38,17 @@ impl<T> Uninit<T> {
 
 impl<T: IoBuf> IoBuf for Uninit<T> {
     fn as_init(&self) -> &[u8] {
-        self.0.as_init() // this is always &[] but we can't return &[] since the pointer will be different
+        // This is always empty, but we can't return &[] since the pointer will be different: it
+        // must stay at the beginning of the uninitialized area, after the bytes already filled.
+        let filled = self.0.as_init();
+        &filled[filled.len()..]
     }
 }
 
 impl<T: IoBufMut> IoBufMut for Uninit<T> {
     fn as_uninit(&mut self) -> &mut [MaybeUninit<u8>] {
-        let len = (*self).buf_len();
-        &mut self.0.as_uninit()[len..]
+        let filled = self.0.buf_len();
+        &mut self.0.as_uninit()[filled..]
     }
 
     fn reserve(&mut self, len: usize) -> Result<(), ReserveError> {
@@ -59,8 +62,10 @@ impl<T: IoBufMut> IoBufMut for Uninit<T> {
 
 impl<T: SetLen + IoBuf> SetLen for Uninit<T> {
     unsafe fn set_len(&mut self, len: usize) {
+        // `len` counts from the beginning of the uninitialized area.
+        let filled = self.0.buf_len();
         unsafe {
-            self.0.set_len(len);
+            self.0.set_len(filled + len);
         }
     }
 }
